@@ -7,6 +7,7 @@ import itertools
 from sa.model import AnalysisError, Unknown, norm, unwrap, Obj, EnumMember
 from sa.query import Facts, call_name, find_calls, defs_of, try_fold, calls_in
 from sa.exc import ExcAnalysis
+from sa.decide import Walker
 from .common import (dongle_classes, protocol_classes, is_dongle_call, firmware,
                      manager_reachable, send_sites, name_defined_only_by, is_method_call_on)
 
@@ -141,7 +142,8 @@ def run(run):
     # ------------------------------------------------------------------ R2
     run.rule("R2", "The unlock() site is dominated (interprocedurally) by: is_onboarded() true; "
              "mode == BOOTLOADER; _check_version(get_version(), UI_VERSION) completed, which "
-             "raises unless UI_VERSION.supports(device version); echo() true; "
+             "raises unless UI_VERSION.supports(device version); echo() true, where echo() of every dongle class is the equality of the "
+             "whole answer with CLA | ECHO command | the message sent; "
              "retries >= 2 with retries = get_retries().")
     if unlock_sites and unlock_sites[0][0] is hb:
         ucall = unlock_sites[0][1]
@@ -408,9 +410,11 @@ def _check_serving(run, F, L, hb, init, gb, gi, unlock_sites, hb_call):
                   where=init.loc(hits[0]),
                   message="the APP_VERSION check is not dominated by mode == SIGNER")
     # mode re-read after _handle_bootloader
-    sig_conds = [n for n in gi.nodes if n.kind == "cond" and isinstance(n.ast, ast.Compare)
-                 and any(isinstance(c, ast.Attribute) and c.attr == "SIGNER"
-                         for c in ast.walk(n.ast))]
+    def _tests_signer(n):
+        root = n.ast if n.kind == "cond" else (n.ast.value if isinstance(n.ast, (ast.Assign, ast.AnnAssign)) else None)
+        return root is not None and any(isinstance(x, ast.Compare) and any(isinstance(c, ast.Attribute) and c.attr == "SIGNER" for c in ast.walk(x))
+                                        for x in ast.walk(root))
+    sig_conds = [n for n in gi.nodes if n.kind in ("cond", "stmt") and n.ast is not None and _tests_signer(n)]
     run.floor("R3", "mode == SIGNER condition in initialize_device", len(sig_conds), 1)
     rereads = [an for n in A.own_nodes(init) if isinstance(n, ast.Assign)
                and isinstance(n.value, ast.Call) and is_dongle_call(run, n.value, init, L, {"get_current_mode"})
@@ -452,17 +456,10 @@ def _check_version_relation(run, L):
              "reads bytes 2,3,4 and is_onboarded byte 1 of a fresh IS_ONBOARD reply; _Mode = modes.h.")
     V = P.cls("ledger.version.HSM2FirmwareVersion")
     sup = P.method(V, "supports")
-    rets = [n for n in A.own_nodes(sup) if isinstance(n, ast.Return)]
-    run.require(len(rets) == 1 and rets[0].value is not None and len(sup.node.body) == len([s for s in sup.node.body if isinstance(s, (ast.Return, ast.Expr))]),
-                "HSM2FirmwareVersion.supports is no longer a single return expression: ORD evaluation not applicable")
     other = sup.params[1]
-    expr = rets[0].value
+    gs = A.cfg(sup, V)
 
-    def shape_ok(e):
-        if isinstance(e, ast.BoolOp):
-            return all(shape_ok(v) for v in e.values)
-        if isinstance(e, ast.UnaryOp) and isinstance(e.op, ast.Not):
-            return shape_ok(e.operand)
+    def is_cmp(e):
         if isinstance(e, ast.Compare) and len(e.ops) == 1:
             a, b = e.left, e.comparators[0]
             return (isinstance(a, ast.Attribute) and isinstance(b, ast.Attribute)
@@ -471,29 +468,41 @@ def _check_version_relation(run, L):
                     and a.attr == b.attr and a.attr in ("major", "minor", "patch")
                     and isinstance(e.ops[0], (ast.Lt, ast.LtE, ast.Gt, ast.GtE, ast.Eq, ast.NotEq)))
         return False
-    run.require(shape_ok(expr), "supports() uses something other than comparisons of matching "
-                "version fields: ordering-domain evaluation not applicable (UNDECIDED)")
 
     def ev(e, env):
+        if isinstance(e, ast.Constant) and isinstance(e.value, bool):
+            return e.value
         if isinstance(e, ast.BoolOp):
             vals = [ev(v, env) for v in e.values]
             return all(vals) if isinstance(e.op, ast.And) else any(vals)
-        if isinstance(e, ast.UnaryOp):
+        if isinstance(e, ast.UnaryOp) and isinstance(e.op, ast.Not):
             return not ev(e.operand, env)
+        if not is_cmp(e):
+            raise AnalysisError("supports() uses something other than comparisons of matching version fields: ordering-domain "
+                                f"evaluation not applicable (UNDECIDED): `{norm(e)[:60]}`")
         a, b = e.left, e.comparators[0]
         x, y = env[(a.value.id, a.attr)], env[(b.value.id, b.attr)]
         op = e.ops[0]
         return {ast.Lt: x < y, ast.LtE: x <= y, ast.Gt: x > y, ast.GtE: x >= y,
                 ast.Eq: x == y, ast.NotEq: x != y}[type(op)]
     bad = []
+    shown = None
     for dm, dn, dp in itertools.product((-1, 0, 1), repeat=3):
         env = {("self", "major"): 5, ("self", "minor"): 5, ("self", "patch"): 5,
                (other, "major"): 5 - dm, (other, "minor"): 5 - dn, (other, "patch"): 5 - dp}
         # d = sign(self - running)
         spec = (dm == 0) and (dn > 0 or (dn == 0 and dp >= 0))
-        got = ev(expr, env)
+
+        def atom(e, env=env):
+            return (ev(e, env), True)
+        leaves = [lf for lf in Walker(A, sup, V, atom).walk(gs.entry)]
+        run.require(len(leaves) == 1 and leaves[0].kind == "return" and leaves[0].node.ast.value is not None,
+                    "HSM2FirmwareVersion.supports: not a decision over version-field comparisons ending in a return (ORD evaluation not applicable)")
+        got = ev(leaves[0].deep(leaves[0].node.ast.value), env)
+        shown = shown or norm(leaves[0].node.ast)
         if got != spec:
             bad.append((dm, dn, dp, got, spec))
+    expr = shown or "supports"
     rel = {-1: "<", 0: "=", 1: ">"}
     if bad:
         dm, dn, dp, got, spec = bad[0]
@@ -508,8 +517,48 @@ def _check_version_relation(run, L):
     # _check_version uses supports with (mware).supports(fware): covered in R2/R3.
 
 
+def _check_echo(run):
+    """`echoed correctly`: echo() is the equality of the whole answer with CLA | command | the message sent."""
+    P, A = run.P, run.A
+    from sa.prov import Prov
+    from sa.layout import Layout
+    from sa.decide import return_values, cmp_parts
+    PV = Prov(A)
+    for dc in dongle_classes(run):
+        r_ = dc.lookup("echo")
+        if r_ is None or r_[1] != "method" or r_[2].cls is not dc:
+            continue
+        ec = r_[2]
+        Ly = Layout(lambda e: try_fold(P, e, ec, dc))
+        vals = return_values(A, ec, dc, PV)
+        run.floor("R2", f"return values of {dc.name}.echo", len(vals), 1)
+        for v in sorted(vals):
+            e = ast.parse(v, mode="eval").body
+            cp = cmp_parts(e)
+            ok = False
+            why = f"returns `{v[:120]}`"
+            if cp is not None and cp[1] == "==":
+                sides = [cp[0], cp[2]]
+                ans = [s for s in sides if isinstance(s, ast.Call) and norm(s.func) == "bytes" and len(s.args) == 1
+                       and isinstance(s.args[0], ast.Call) and call_name(s.args[0]) == "_send_command"]
+                exp = [s for s in sides if s not in ans]
+                if len(ans) == 1 and len(exp) == 1:
+                    send = ans[0].args[0]
+                    msg = Ly.canon(send.args[1]) if len(send.args) > 1 else None
+                    okc, cmd = try_fold(P, send.args[0], ec, dc)
+                    okl, cla = try_fold(P, ast.parse("self.CLA", mode="eval").body, ec, dc)
+                    want = f"u8({int(cla)}) | u8({int(cmd)}) | {msg}" if okc and okl and msg else None
+                    got = Ly.canon(exp[0])
+                    ok = want is not None and got == want
+                    why = f"compares the answer with `{got}`, expected `{want}`"
+            run.check("R2", ok, f"{dc.name}.echo() == (whole answer equals CLA | ECHO | message)", key=f"{dc.name}.echo|equality", where=ec.loc(),
+                      message=f"{dc.name}.echo {why}: only the equality of the complete answer with CLA | command | the message sent means the device "
+                              "echoed correctly (a prefix / element-wise / containment test accepts truncated or padded answers)")
+
+
 def _check_constants(run, L):
     P, A = run.P, run.A
+    _check_echo(run)
     fw = firmware(run)
     for const, rel in (("UI_VERSION", "ledger/ui/src/defs.h"), ("APP_VERSION", "powhsm/src/defs.h")):
         v = P.class_const(L, const)
